@@ -32,15 +32,36 @@ def nontrivial(row):
     return bool(re.search(r"\(o1 \(", row[2]))
 
 
-def run_levels(exe, src):
+def delete_defs(src, lines):
+    """the source without the definitions that start on the given (1-based) lines, each with its more-indented continuation"""
+    ls = src.rstrip("\n").split("\n")
+    drop = set()
+    for n in lines:
+        i = n - 1
+        if 0 <= i < len(ls):
+            ind = len(ls[i]) - len(ls[i].lstrip(" "))
+            drop.add(i)
+            j = i + 1
+            while j < len(ls) and ls[j].strip() and (len(ls[j]) - len(ls[j].lstrip(" "))) > ind:
+                drop.add(j)
+                j += 1
+    return "\n".join(l for k, l in enumerate(ls) if k not in drop) + "\n"
+
+
+def run_levels(exe, src, levels=(0, 1, 2, 3)):
     """[(rc, stdout, exception type, traceback line)] for -o 0..3"""
     res = []
     with tempfile.TemporaryDirectory(prefix="verif_c12_") as d:
         f = os.path.join(d, "case.er")
         open(f, "w").write(src)
-        for n in range(4):
+        for n in levels:
             rc, out, err = core.sh([exe, "-o", str(n), "run", f], env=core.erg_env(), timeout=180, cwd=d)
             err = mt.ANSI.sub("", err)
+            # compile-time warnings are printed on stdout before the program runs: keep the program's own output
+            out = mt.ANSI.sub("", out)
+            ws = list(re.finditer(r"^\w*Warning: .*\n\n?", out, re.M))
+            if ws:
+                out = out[ws[-1].end():]
             exc = None
             m = re.findall(r"^(\w+(?:Error|Exception|Interrupt)\b)", err, re.M)
             if rc != 0 and m:
@@ -59,11 +80,11 @@ def behaviour_stream(ctx, rows, mrows_by_id):
     exe = mt.erg_cli(ctx)
     if not exe:
         return
-    n = 60 if ctx.tier == "thorough" else 10
+    n = 36 if ctx.tier == "thorough" else 6
     cand = [r for r in rows if r[2].startswith("(o0")]
     plain = [r for r in cand if not r[0].startswith("x")]
     rais = [r for r in cand if r[0].startswith("x")]
-    picked = plain[:: max(len(plain) // n, 1)][:n] + rais[:: max(len(rais) // max(n // 4, 1), 1)][: max(n // 4, 1)]
+    picked = plain[:: max(len(plain) // n, 1)][:n] + rais[:: max(len(rais) // max(n // 3, 1), 1)][: max(n // 3, 1)]
     stats = {"programs": 0, "runs": 0, "same_all_levels": 0, "known_class": 0, "exit_nonzero": 0, "stdout_lines": 0}
     for r in picked:
         src = mt.src_of(r[1])
@@ -77,13 +98,17 @@ def behaviour_stream(ctx, rows, mrows_by_id):
         if all(o == obs[0] for o in obs):
             stats["same_all_levels"] += 1
             continue
-        # class of the recorded finding: -o 0 dies with an exception raised on the line of a definition that the (model == impl)
-        # optimiser removes, and the optimised levels agree with each other
-        elim = eliminated_lines(r[2])
-        if (res[0][2] is not None and res[0][3] in elim and obs[1] == obs[2] == obs[3]
+        # class of the recorded finding: -o 0 dies with an uncaught exception, the optimised levels agree with each other, and
+        # -o 1 behaves exactly like -o 0 of the program with the removed definitions (impl == model, effect trace kept) deleted
+        # from the source — i.e. the whole difference is the exception of an eliminated, effect-free initialiser.
+        # (The traceback line cannot be used: on targets >= 3.10 module lines collapse to 1, finding C14 #20.)
+        if (res[0][2] is not None and obs[1] == obs[2] == obs[3]
                 and any(e["id"] == "C12-raising-def-dropped" for e in ctx.known_findings())):
-            stats["known_class"] += 1
-            continue
+            stripped = delete_defs(src, eliminated_lines(r[2]))
+            r0 = run_levels(exe, stripped, levels=(0,))[0]
+            if (r0[0], r0[1], r0[2]) == obs[1]:
+                stats["known_class"] += 1
+                continue
         ctx.violation({"kind": "behaviour-differs-across-levels", "input": r[1], "impl": r[2],
                        "levels": [{"o": i, "rc": x[0], "stdout": x[1][-600:], "exception": x[2], "line": x[3]} for i, x in enumerate(res)],
                        "what": "`erg -o N run` gives different stdout / exception / exit status at different optimisation levels"})
@@ -125,7 +150,7 @@ def run(ctx):
                        "eight may contain an initialiser that raises; non-trivial = at least one definition eliminated at -o 1")
     ctx.assumptions = ["programs go through the real pipeline build -> link -> desugar before HIROptimizer::optimize",
                        "the behavioural stream compares stdout, uncaught exception type and exit status of `erg -o N run` for N = 0..3"]
-    core.standard_check(ctx, harness_bin=HARNESS, n_quick=300, n_thorough=3000, nontrivial=nontrivial,
+    core.standard_check(ctx, harness_bin=HARNESS, n_quick=200, n_thorough=3000, nontrivial=nontrivial,
                         trusted=["HIR -> mini-HIR projection harness/src/minihir.rs incl. referrer counts read from the module index",
                                  "CPython 3.11 + erg code generator as executors of the behavioural stream"],
                         search_more=mt.make_search_more(HARNESS), shrink=mt.make_shrinker(HARNESS), post=post,
